@@ -143,6 +143,9 @@ def sweep():
 def replay_scoping(w, obligation, expects):
     r = sweep()
     b = r["bad"]
+    if "a_nested_class_body_does_not_see" in (obligation or ""):
+        # this obligation is about one scoping rule: its native witness is the nested-class fixture, whatever else fails
+        b = [x for x in b if x["problem"].startswith("c4pkg.nested.")]
     return {"reproduced": bool(b), "detail": ("; ".join(x["problem"] for x in b[:3]) if b else f"{r['cases']} annotated names resolve to what CPython binds"),
             "signature": b[0]["signature"] if b else "ok"}
 
